@@ -63,6 +63,11 @@ def run(ctx):
             for g2 in itertools.permutations(labels):
                 for sig in ([1, 1], [1, -1], [0, 1], [-1, 0]):
                     bases.append((sig, ['e'] + ['e' + hexd(l) for l in labels] + ['e' + ''.join(hexd(x) for x in g2)]))
+    # the smallest cases: no basis vector at all, one basis vector
+    bases.append(([], ['e']))
+    for sig1 in ([1], [-1], [0]):
+        for lab in (0, 1, 3):
+            bases.append((sig1, ['e', 'e' + hexd(lab)]))
     n = 8 if ctx.quick else 60
     for _ in range(n):
         d = rng.choice([3, 3, 4] if ctx.quick else [3, 4, 4, 5])
@@ -98,8 +103,8 @@ def run(ctx):
             if dict(a2.signs) != dict(alg.signs) if d <= 6 else False:
                 ctx.violation('fromname-instance', desc, None, None, key='fromname')
         for _ in range(npat):
-            kx = list(dict.fromkeys(key_tuples(rng, d, 1, ['small', 'grades', 'subset'])[0] or [1]))[:5]
-            ky = list(dict.fromkeys(key_tuples(rng, d, 1, ['small', 'grades', 'subset'])[0] or [2]))[:5]
+            kx = list(dict.fromkeys(key_tuples(rng, d, 1, ['small', 'grades', 'subset'])[0] or [min(1, 2 ** d - 1)]))[:5]
+            ky = list(dict.fromkeys(key_tuples(rng, d, 1, ['small', 'grades', 'subset'])[0] or [min(2, 2 ** d - 1)]))[:5]
             x, y = tracer_mv(alg, kx, 0), tracer_mv(alg, ky, 1000)
             px, py = phi(dflt, eps, x), phi(dflt, eps, y)
             for op in OPS_BIN:
